@@ -11,7 +11,9 @@
 (***************************************************************************)
 EXTENDS Integers, Sequences, FiniteSets, TLC, Json
 
-CONSTANTS MaxOps, MaxObjs, MaxCreate, World, EmitOn
+CONSTANTS MaxOps, MaxObjs, MaxCreate, World, EmitOn,
+          Focus      \* "all": every action and argument; "save": a small alphabet around Waterfall attachment, rebinding,
+                     \* saving and loading, small enough to enumerate every sequence exhaustively
 
 VARIABLES objs,      \* sequence of live frames
           files,     \* sequence of saved files [fmt, frame projection]
@@ -23,6 +25,7 @@ vars == <<objs, files, last, ncreate, hist>>
 View == <<objs, files, last, ncreate>>
 
 Abs(x) == IF x < 0 THEN -x ELSE x
+All == Focus = "all"
 Ident(i, w) == 1000 * i + w                                  \* row i (1-based), world channel w
 
 NewFrame(F, T, asc, lo, t0, src) ==
@@ -46,7 +49,7 @@ Init == objs = <<>> /\ files = <<>> /\ last = [st |-> "ok"] /\ ncreate = 0 /\ hi
 Create(F, T, asc, lo, route) ==
     /\ Active /\ Room /\ lo + F <= World /\ ncreate < MaxCreate
     /\ ncreate' = ncreate + 1
-    /\ objs' = Append(objs, NewFrame(F, T, asc, lo, 7, IF route = "data" THEN "Synthetic" ELSE "SRC1"))
+    /\ objs' = Append(objs, NewFrame(F, T, asc, lo, 7, IF route = "data" THEN "Synthetic" ELSE (IF ncreate = 0 THEN "SRC1" ELSE "SRC2")))
     /\ last' = [st |-> "ok"] /\ UNCHANGED files
     /\ LogC([name |-> "Create", F |-> F, T |-> T, asc |-> asc, lo |-> lo, route |-> route], [st |-> "ok"])
 
@@ -64,7 +67,7 @@ CopyOp(o) ==
 
 (* pickle round trip (save_pickle / load_pickle, pickle.dumps / loads): an equal, independent frame without Waterfall *)
 PickleOp(o) ==
-    /\ Active /\ Room /\ o \in 1..Len(objs)
+    /\ All /\ Active /\ Room /\ o \in 1..Len(objs)
     /\ objs' = Append(objs, [objs[o] EXCEPT !.wf = FALSE])
     /\ last' = [st |-> "ok"] /\ UNCHANGED files
     /\ Log([name |-> "Pickle", o |-> o], [st |-> "ok"])
@@ -72,17 +75,24 @@ PickleOp(o) ==
 (* the user (or Cadence.consolidate) replaces the time axis by one that starts tsoff rows later: part of the frame's state
    that copies and pickles must carry; files do not store it and derived frames start afresh *)
 ShiftTs(o) ==
-    /\ Active /\ o \in 1..Len(objs) /\ objs[o].tsoff = 0
+    /\ All /\ Active /\ o \in 1..Len(objs) /\ objs[o].tsoff = 0
     /\ objs' = [objs EXCEPT ![o].tsoff = 5]
     /\ last' = [st |-> "ok"] /\ UNCHANGED files
     /\ Log([name |-> "ShiftTs", o |-> o], [st |-> "ok"])
 
 (* change the data of one frame (to see that copies / derived frames hold their own data) *)
 Mutate(o) ==
-    /\ Active /\ o \in 1..Len(objs)
+    /\ All /\ Active /\ o \in 1..Len(objs)
     /\ objs' = [objs EXCEPT ![o].data = [i \in 1..objs[o].T |-> [j \in 1..objs[o].F |-> objs[o].data[i][j] + 500000]]]
     /\ last' = [st |-> "ok"] /\ UNCHANGED files
     /\ Log([name |-> "Mutate", o |-> o], [st |-> "ok"])
+
+(* replace the pixel array by a new one of the same shape (frame.data = ..., zero_data + refill, load_npy) *)
+Rebind(o) ==
+    /\ Active /\ o \in 1..Len(objs) /\ \A i \in 1..objs[o].T, j \in 1..objs[o].F : objs[o].data[i][j] % 500000 < 250000
+    /\ objs' = [objs EXCEPT ![o].data = [i \in 1..objs[o].T |-> [j \in 1..objs[o].F |-> objs[o].data[i][j] + 250000]]]
+    /\ last' = [st |-> "ok"] /\ UNCHANGED files
+    /\ Log([name |-> "Rebind", o |-> o], [st |-> "ok"])
 
 (* frequency slice [l, r): columns l..r-1 of data and axis *)
 Slice(o, l, r) ==
@@ -98,7 +108,7 @@ Slice(o, l, r) ==
 MaxOffset(f, q) == RoundQ(Abs(q) * f.T)
 Offset(q, i) == RoundQ(Abs(q) * i)                            \* row i is 0-based
 Dedrift(o, q) ==
-    /\ Active /\ Room /\ o \in 1..Len(objs)
+    /\ All /\ Active /\ Room /\ o \in 1..Len(objs)
     /\ LET f == objs[o]  m == MaxOffset(f, q)  a == [name |-> "Dedrift", o |-> o, q |-> q] IN
        IF m >= f.F
        THEN /\ objs' = objs /\ last' = [st |-> "ValueError"] /\ Log(a, [st |-> "ValueError"])
@@ -113,7 +123,7 @@ Dedrift(o, q) ==
 RECURSIVE SumSeq(_)
 SumSeq(s) == IF s = <<>> THEN 0 ELSE Head(s) + SumSeq(Tail(s))
 Integrate(o, axis) ==
-    /\ Active /\ o \in 1..Len(objs)
+    /\ All /\ Active /\ o \in 1..Len(objs)
     /\ LET f == objs[o]
            sums == IF axis = "t" THEN [j \in 1..f.F |-> SumSeq([i \in 1..f.T |-> f.data[i][j]])]
                    ELSE [i \in 1..f.T |-> SumSeq(f.data[i])]
@@ -139,9 +149,20 @@ Load(k) ==
 (* load a frequency sub-band [l, r) of a file (f_start / f_stop selection): a query; the loaded frame must be a window of
    the saved frame registered at the same sky frequencies (which edge channels the reader includes is its business) *)
 LoadSub(k, l, r) ==
-    /\ Active /\ k \in 1..Len(files) /\ 0 <= l /\ l + 1 < r /\ r <= files[k].frame.F
+    /\ All /\ Active /\ k \in 1..Len(files) /\ 0 <= l /\ l + 1 < r /\ r <= files[k].frame.F
     /\ last' = [st |-> "ok"] /\ UNCHANGED <<objs, files>>
     /\ Log([name |-> "LoadSub", file |-> k, l |-> l, r |-> r], [st |-> "ok", file |-> files[k].frame])
+
+(* a frame built from an in-session reader object that selects integrations [a, b) of a file: rows a..b-1, start time as
+   the implementation reports it for such a selection (the file's); what matters afterwards is that saving and loading
+   THIS frame is faithful *)
+LoadT(k, a, b) ==
+    /\ Active /\ Room /\ k \in 1..Len(files) /\ 0 <= a /\ a < b /\ b <= files[k].frame.T
+    /\ LET f == files[k].frame
+           g == [f EXCEPT !.T = b - a, !.tsoff = 0, !.data = [i \in 1..b - a |-> f.data[a + i]]] IN
+       objs' = Append(objs, g @@ [wf |-> TRUE])
+    /\ last' = [st |-> "ok"] /\ UNCHANGED files
+    /\ Log([name |-> "LoadT", file |-> k, a |-> a, b |-> b], [st |-> "ok"])
 
 Done == /\ EmitOn /\ Len(hist) = MaxOps
         /\ PrintT(ToJson(hist))
@@ -149,38 +170,43 @@ Done == /\ EmitOn /\ Len(hist) = MaxOps
         /\ UNCHANGED <<objs, files, last, ncreate>>
 
 Os == 1..MaxObjs
+CreateArgs == IF All THEN {3, 4, 6} \X {2, 3} \X BOOLEAN \X {0, 2} \X {"sizes", "data"} ELSE {4} \X {3} \X BOOLEAN \X {1} \X {"sizes"}
+SliceArgs == IF All THEN (0..5) \X (1..6) ELSE {<<1, 4>>}
+LoadTArgs == IF All THEN (1..2) \X (0..1) \X (1..3) ELSE {<<1, 1, 3>>}
 Next == \/ Done
-        \/ \E F \in {3, 4, 6}, T \in {2, 3}, asc \in BOOLEAN, lo \in {0, 2}, route \in {"sizes", "data"} : Create(F, T, asc, lo, route)
+        \/ \E x \in CreateArgs : Create(x[1], x[2], x[3], x[4], x[5])
         \/ \E o \in Os : GetWaterfall(o)
         \/ \E o \in Os : CopyOp(o)
         \/ \E o \in Os : PickleOp(o)
         \/ \E o \in Os : Mutate(o)
         \/ \E o \in Os : ShiftTs(o)
-        \/ \E o \in Os, l \in 0..5, r \in 1..6 : Slice(o, l, r)
+        \/ \E o \in Os : Rebind(o)
+        \/ \E o \in Os, x \in SliceArgs : Slice(o, x[1], x[2])
         \/ \E o \in Os, q \in {-6, -4, -3, -1, 0, 2, 3, 5, 9} : Dedrift(o, q)
         \/ \E o \in Os, axis \in {"t", "f"} : Integrate(o, axis)
         \/ \E o \in Os, fmt \in {"fil", "h5"} : Save(o, fmt)
         \/ \E k \in 1..2 : Load(k)
         \/ \E k \in 1..2, l \in 0..4, r \in 2..6 : LoadSub(k, l, r)
+        \/ \E x \in LoadTArgs : LoadT(x[1], x[2], x[3])
 
 Spec == Init /\ [][Next]_vars
 
 -----------------------------------------------------------------------------
 WellFormed(f) == /\ f.F >= 1 /\ f.lo >= 0 /\ f.lo + f.F <= World
-                 /\ \A i \in 1..f.T, j \in 1..f.F : (f.data[i][j] % 500000) % 1000 \in 0..World - 1
+                 /\ \A i \in 1..f.T, j \in 1..f.F : (f.data[i][j] % 250000) % 1000 \in 0..World - 1
 (* C03: a file holds exactly the frame that was saved; loading gives it back *)
 SaveLoadFaithful == \A k \in 1..Len(objs) : WellFormed(objs[k])
 (* C17: row 0 of every frame keeps its pixels at their original frequencies: column j of row 1 carries world channel lo + j - 1 *)
-Row0Registered == \A k \in 1..Len(objs) : \A j \in 1..objs[k].F : (objs[k].data[1][j] % 500000) % 1000 = objs[k].lo + j - 1
+Row0Registered == \A k \in 1..Len(objs) : \A j \in 1..objs[k].F : (objs[k].data[1][j] % 250000) % 1000 = objs[k].lo + j - 1
 (* C17: de-drifting maps a constant-drift line onto (almost) one column: consecutive rows of the de-drifted frame differ
    from the parent's drift line by at most one channel -- expressed on identities: row i holds world channels shifted by
    the row's offset, which never decreases and never jumps by more than ceil(|q| / 4) *)
 RowsShiftMonotonically ==
     \A k \in 1..Len(objs) : \A i \in 1..objs[k].T - 1 :
-        LET a == (objs[k].data[i][1] % 500000) % 1000  b == (objs[k].data[i + 1][1] % 500000) % 1000 IN Abs(b - a) <= 3
+        LET a == (objs[k].data[i][1] % 250000) % 1000  b == (objs[k].data[i + 1][1] % 250000) % 1000 IN Abs(b - a) <= 3
 (* derived frames and copies hold their own data: mutating one object changes only that object *)
 DerivedIsCopy ==
-    [][\A o \in 1..Len(objs) : (hist' # hist /\ hist'[Len(hist')].act.name = "Mutate" /\ hist'[Len(hist')].act.o # o)
+    [][\A o \in 1..Len(objs) : (hist' # hist /\ hist'[Len(hist')].act.name \in {"Mutate", "Rebind"} /\ hist'[Len(hist')].act.o # o)
           => objs'[o] = objs[o]]_vars
 (* derived frames keep orientation, rows, start time and source name *)
 DerivedKeepMeta ==
